@@ -195,6 +195,8 @@ SDEV = dict(MAXP='2', MAXE='1', MAXA='1', ENCS='{"qp"}', SMIMES='{[key |-> "rsa"
             HDRS=hdrsets(["genempty", "subject"], ["plain"]), PDESCS='{"", "long"}',
             OPSEQS='{<<"WriteTo", "WriteTo">>, <<"FailSinkLate", "WriteTo">>}')
 B64 = dict(SIZES='{1, 2, 3, 4, 56, 57, 72, 75, 76, 77, 80, 152, 153, 1024}', MAXCALLS='4', DEV_OffByOne='FALSE')
+# unbounded argument (any number of Write calls of any sizes): inductive invariant of spec/B64LineInd.tla with Apalache
+EXTERNAL = {('C18', 'thorough'): [('line-breaker-inductive', 'bin/apalache-b64')]}
 DESIGN_ONLY = {'C18': [('line-breaker', 'B64Line', B64, ['FullLines', 'NeverTooLong', 'Conserves', 'Complete'])]}
 SENSITIVITY = {'C18': [('DEV_OffByOne', 'B64Line', dict(B64, DEV_OffByOne='TRUE'), 'NeverTooLong')],
                'C08': [(d, 'Smime', scfg(**dict(SDEV, **{d: 'TRUE'})), 'CounterClean' if d in ('DEV_NoReset', 'DEV_NoResetOnError') else 'Verifies')
